@@ -2,6 +2,7 @@
 //! `FluteModel/Sched.lean`; oracles = the property clauses on the decoded packet stream.
 mod eng;
 mod gen;
+mod probe;
 
 fn main() {
     harness_core::engine_main("sched", || Box::new(eng::SchedEngine::new()), gen::run);
